@@ -214,6 +214,16 @@ def check(ctx):
             ctx.ob('R4.4-rate-laws', '%s/%s' % (rule, key), ok, where, what, detail)
         if rule == 'R2.1-node-semantics' and key.endswith('.evaluate'):
             ctx.ob('R4.4-rate-laws', '%s/%s' % (rule, key), ok, where, what, detail)
-    ctx.floor('R4.4-rate-laws', 55)
+    # ... and what a compiled expression evaluates to depends on the string and the model's dictionaries only: the module that compiles
+    # and evaluates them keeps no state between calls (C08 R8.7) - re-emitted here
+    from . import c08
+    for m_ in ('types', 'types.pxd', 'random', 'lineage', 'lineage.pxd', 'inference'):
+        ctx.prog.mod(m_)
+    sub = SubCtx(ctx)
+    c08.check_pure_evaluation(sub)
+    for rule, key, ok, where, what, detail in sub.got:
+        if rule == 'R8.7-pure-evaluation' and key in ('methods', 'module-state'):
+            ctx.ob('R4.4-rate-laws', '%s/%s' % (rule, key), ok, where, what, detail)
+    ctx.floor('R4.4-rate-laws', 57)
     ctx.floor('R4.1-rhs', 1)
     ctx.floor('R4.3-odeint-call', 3)
